@@ -17,8 +17,33 @@
 #include <glm/gtx/dual_quaternion.hpp>
 using namespace symt;
 
+// helpers for the numeric exploration (domains of the clauses that have no theorem yet)
+template<class T> static bool unitq(T const* x, glm::qua<T, glm::defaultp>& q) {
+  T n = std::sqrt(x[0] * x[0] + x[1] * x[1] + x[2] * x[2] + x[3] * x[3]); if (!(n > T(0.3))) return false;
+  q = glm::qua<T, glm::defaultp>::wxyz(x[0] / n, x[1] / n, x[2] / n, x[3] / n); return true; }
+template<class T> static T qdist(glm::qua<T, glm::defaultp> const& a, glm::qua<T, glm::defaultp> const& b) {   // distance up to sign
+  T d1 = std::max(std::max(std::abs(a.w - b.w), std::abs(a.x - b.x)), std::max(std::abs(a.y - b.y), std::abs(a.z - b.z)));
+  T d2 = std::max(std::max(std::abs(a.w + b.w), std::abs(a.x + b.x)), std::max(std::abs(a.y + b.y), std::abs(a.z + b.z)));
+  return std::min(d1, d2); }
+template<int C, int R, class T> static T mdist(glm::mat<C, R, T, glm::defaultp> const& a, glm::mat<C, R, T, glm::defaultp> const& b) {
+  T d = 0; for (int c = 0; c < C; ++c) for (int r = 0; r < R; ++r) d = std::max(d, std::abs(a[c][r] - b[c][r])); return d; }
+
 int main(int argc, char** argv) {
 #if IN_PART(0)
+  // quat_cast(mat3_cast(q)) = +-q ; angleAxis(angle(q), axis(q)) = +-q ; quat(eulerAngles(q)) has the same matrix ;
+  // quat(u, v) rotates u onto the direction of v (also for opposite vectors)
+  add_prop(nm("p_castcast", {CFG}), 4, 2e-3, 1e-9, [](auto const* x) { using T = TY(x); glm::qua<T, glm::defaultp> q; if (!unitq(x, q)) return T(-1);
+    return qdist(glm::quat_cast(glm::mat3_cast(q)), q); });
+  add_prop(nm("p_angleaxis", {CFG}), 4, 2e-3, 1e-7, [](auto const* x) { using T = TY(x); glm::qua<T, glm::defaultp> q; if (!unitq(x, q)) return T(-1);
+    if (std::abs(q.w) > T(0.999)) return T(-1);
+    return qdist(glm::angleAxis(glm::angle(q), glm::axis(q)), q); });
+  add_prop(nm("p_eulerq", {CFG}), 4, 5e-3, 1e-6, [](auto const* x) { using T = TY(x); glm::qua<T, glm::defaultp> q; if (!unitq(x, q)) return T(-1);
+    if (std::abs(T(2) * (q.x * q.z - q.w * q.y)) > T(0.98)) return T(-1);                 // gimbal-lock neighbourhood excluded
+    return mdist(glm::mat3_cast(glm::qua<T, glm::defaultp>(glm::eulerAngles(q))), glm::mat3_cast(q)); });
+  add_prop(nm("p_fromto", {CFG}), 6, 5e-3, 1e-6, [](auto const* x) { using T = TY(x); auto u = ldv<3, T>(x), v = ldv<3, T>(x + 3);
+    if (!(glm::length(u) > T(0.3)) || !(glm::length(v) > T(0.3))) return T(-1);
+    glm::qua<T, glm::defaultp> q(u, v); auto r = q * glm::normalize(u); auto w = glm::normalize(v);
+    return std::max(std::abs(r.x - w.x), std::max(std::abs(r.y - w.y), std::abs(r.z - w.z))); });
   add_unit(nm("qmul", {CFG}), 8, 4, [](auto const* x, auto* o) { stq(o, ldq(x) * ldq(x + 4)); });
   add_unit(nm("qcross", {CFG}), 8, 4, [](auto const* x, auto* o) { stq(o, glm::cross(ldq(x), ldq(x + 4))); });
   add_unit(nm("qmulv3", {CFG}), 7, 3, [](auto const* x, auto* o) { using T = TY(o); stv(o, ldq(x) * ldv<3, T>(x + 4)); });
@@ -63,6 +88,13 @@ int main(int argc, char** argv) {
   add_unit("orientate2", 1, 4, [](auto const* x, auto* o) { stm(o, glm::orientate2(x[0])); });
 #endif
 #if CFG == 0 && IN_PART(2)
+  // extractEulerAngleABC(eulerAngleABC(t1,t2,t3)) rebuilds the same matrix; t2 kept away from the gimbal lock of the variant
+#define PX3(NAME, PROPER) add_prop("p_extract_" #NAME, 3, 5e-3, 1e-7, [](auto const* x) { using T = TY(x); \
+    T t1 = x[0] * T(0.75), t3 = x[2] * T(0.75), t2 = PROPER ? (std::abs(x[1]) * T(0.7) + T(0.15)) : x[1] * T(0.7); \
+    auto M = glm::eulerAngle##NAME(t1, t2, t3); T a, b, c; glm::extractEulerAngle##NAME(M, a, b, c); \
+    return mdist(glm::eulerAngle##NAME(a, b, c), M); });
+  PX3(XYZ, false) PX3(YXZ, false) PX3(XZY, false) PX3(YZX, false) PX3(ZYX, false) PX3(ZXY, false)
+  PX3(XZX, true) PX3(XYX, true) PX3(YXY, true) PX3(YZY, true) PX3(ZYZ, true) PX3(ZXZ, true)
   // extractEulerAngleABC of the matrix built by eulerAngleABC (round trip traced as one unit)
 #define X3(NAME, A, B, C) add_unit(nm("extract3", {A, B, C}), 16, 3, [](auto const* x, auto* o) { using T = TY(o); T a, b, c; glm::extractEulerAngle##NAME(ldm<4, 4, T>(x), a, b, c); o[0] = a; o[1] = b; o[2] = c; });
   X3(XYZ, 0, 1, 2) X3(YXZ, 1, 0, 2) X3(XZX, 0, 2, 0) X3(XYX, 0, 1, 0) X3(YXY, 1, 0, 1) X3(YZY, 1, 2, 1)
